@@ -572,4 +572,9 @@ _obligations_c14h = obligations
 
 
 def obligations(ctx, cfg):
-    return _obligations_c14h(ctx, cfg) + [PushRegistration(ctx)]
+    # a CreateSubscription that is refused (name taken, other project) must not start anything: starting the actor is what registers
+    # a push endpoint (C10.a/b's obligation under C14's id)
+    from props.C16 import CreateSubscription
+    cs = CreateSubscription(ctx, abandon=False)
+    cs.id = 'C14.i-refused-create-starts-nothing'
+    return _obligations_c14h(ctx, cfg) + [PushRegistration(ctx), cs]
